@@ -90,6 +90,26 @@ def datagram_case(seq, tail):
     return out
 
 
+def two_datagrams_case(seq, tail):
+    m = menu()
+    p = Rec()
+    addr = ("192.0.2.5", 30501)
+    first = b"".join(refcodec.enc_someip(*m[i]) for i in seq) + tail
+    second = refcodec.enc_someip(*m[4]) + refcodec.enc_someip(*m[0])
+    try:
+        p.datagram_received(first, addr, False)
+        n1 = len(p.got)
+        p.datagram_received(second, addr, False)
+    except Exception as e:  # noqa: BLE001
+        return [("datagram", f"two-datagrams-raises-{type(e).__name__}", f"{type(e).__name__}: {e}")]
+    want = [mk(*m[4]), mk(*m[0])]
+    got = [g[0] for g in p.got[n1:]]
+    if got != want:
+        return [("datagram", "second-datagram-misframed", f"after a datagram with an undecodable tail of {len(tail)} bytes the next "
+                 f"datagram delivered {len(got)} messages, expected 2 equal ones")]
+    return []
+
+
 def long_datagram_case(count):
     one = [refcodec.enc_someip(0x1000 + (i & 0xFF), i & 0xFFFF, 1, i & 0xFFFF, 1, 0x02, 0, b"") for i in range(count)]
     p = Rec()
@@ -162,6 +182,11 @@ def check(ctx):
     for seq in ((0,), (1, 2), (5, 4, 3)):
         n += 1
         rec(datagram_case(seq, b""), dict(kind="datagram", seq=seq, tail=b"", after_history=True))
+    # (f) datagram after datagram on one protocol object: a datagram with an undecodable tail, then a clean one
+    for seq in ((0,), (1, 2)):
+        for t, tail in enumerate(TAILS[1:]):
+            n += 1
+            rec(two_datagrams_case(seq, tail), dict(kind="two-datagrams", seq=seq, tail=tail))
     # (d) "any number of messages per datagram": as many empty-payload messages as a UDP datagram can hold
     for count in (255, 256, 1000, 2000, 4094):
         n += 1
@@ -183,7 +208,9 @@ def check(ctx):
 
 def replay(ctx, body):
     case = body["case"]
-    if case["kind"] == "long-datagram":
+    if case["kind"] == "two-datagrams":
+        res = two_datagrams_case(tuple(case["seq"]), case["tail"])
+    elif case["kind"] == "long-datagram":
         res = long_datagram_case(case["count"])
     elif case["kind"] == "datagram":
         res = datagram_case(tuple(case["seq"]), case["tail"])
